@@ -23,11 +23,23 @@ import (
 )
 
 const (
-	repo     = "/repo"
-	verif    = "/verif"
 	modPath  = "github.com/vipnode/vipnode/v2"
 	vpkgRoot = "internal/verif"
 )
+
+// repo and verif are fixed for registered checks; VERIF_REPO / VERIF_ROOT let the evaluation of
+// seeded changes run against a scratch worktree and a snapshot of the machinery.
+var (
+	repo  = envOr("VERIF_REPO", "/repo")
+	verif = envOr("VERIF_ROOT", "/verif")
+)
+
+func envOr(k, d string) string {
+	if v := os.Getenv(k); v != "" {
+		return v
+	}
+	return d
+}
 
 // files that get statement-granular scheduling points
 var stmtFiles = []string{
